@@ -557,6 +557,7 @@ INNER = [
     "(select a from t1) union (select a from t2)", "(select a from t1 where b in (1, 2)) union all (select a from t2 where c = f(1))", "(select a from t)", "((select a from t))",
     "select a from t where b in (select c from u)", "select (a + 1) * (b - 2) from t", "select a from (select a from t) as x",
     "select a\n--\n, b\nfrom t", "select a -- x\n, b from t", "select a --\n from t", "select a /* c */ , /* d\n e */ b from t",
+    "retrain p1;\n retrain p2", "select 'a;\nb' from t", "select 'x  \ny' from t", "select now() from t", "select f( ) , g(()) from t", "select a from t ;\n",
 ]
 
 
@@ -637,5 +638,7 @@ def check(rep, tier):
     tts_obligations(rep)
     collect_obligations(rep)
     store_obligations(rep)
+    from vlib import preproc
+    preproc.obligation(rep, 'C16', tier, dialects=('mindsdb',))
     bounded(rep, tier)
     rep.notes.append('Reconstruction proved under value == source text; that precondition fails for the four rewriting token kinds (known findings).')
